@@ -139,6 +139,9 @@ type Trace struct {
 	CliSizes      Sizes
 	SrvSizes      Sizes
 	SizesRead     bool
+	EarlyCli      Sizes // C13: tables once the wire has gone quiet after the last call returned (no expiry needed yet)
+	EarlySrv      Sizes
+	EarlyRead     bool
 	Leaked        bool
 	Deadlock      bool
 	Panic         string
@@ -690,6 +693,38 @@ func Run(t *testing.T, sc Scenario, track bool) (tr Trace) {
 		case <-time.After(10 * time.Minute):
 		}
 		releaseHeld()
+		// ---- early read-out: as soon as the wire is quiet (two windows of 40 ms without traffic, at
+		// most 1.5 s), before any expiry has had a chance to tidy up
+		if plink != nil || streamStorm != nil {
+			traffic := func() int {
+				if plink != nil {
+					return len(plink.Log())
+				}
+				return 0
+			}
+			last, quiet := traffic(), 0
+			for k := 0; k < 36 && quiet < 2; k++ {
+				time.Sleep(40 * time.Millisecond)
+				bubble.Wait()
+				if n := traffic(); n == last {
+					quiet++
+				} else {
+					last, quiet = n, 0
+				}
+			}
+			select {
+			case <-cli.Done():
+			default:
+				select {
+				case <-srv.Done():
+				default:
+					if quiet >= 2 {
+						tr.EarlyCli, tr.EarlySrv = sizes()
+						tr.EarlyRead = true
+					}
+				}
+			}
+		}
 		// ---- idle phase, then the table read-out (C13) ------------------------------------------------
 		time.Sleep(time.Duration(def(sc.SettleMs, 300000)) * time.Millisecond)
 		bubble.Wait()
